@@ -147,6 +147,7 @@ def _worker(args):
     import runout  # noqa: F401  (registers C14)
     import variants  # noqa: F401  (registers C11)
     import phh  # noqa: F401  (registers C16)
+    import acpc  # noqa: F401  (registers C17)
     mons = [monitors.ALL[m] for m in monitor_names]
     r = run.run_batch(seeds, tag, variant, profile, monitors=mons)
     viols = []
